@@ -171,6 +171,47 @@ pub fn run(ctx: &Ctx) -> Outcome {
                 }
             }
         }
+        // caller-supplied closure scripts (every sequence of <= 3 backend calls over {group, single block, tail of 1, tail of 2}
+        // in one process_with_backend session) from the start, from a carry boundary and from just before the field wraps
+        if cfg.is_toy() {
+            let mut scripts: Vec<Vec<u8>> = vec![];
+            let ops: Vec<u8> = [0u8, 2, 4, 6].into_iter().filter(|o| (*o < 6 || par >= 3) && (*o < 4 || par >= 2)).collect();
+            let mut last: Vec<Vec<u8>> = vec![vec![]];
+            for _ in 0..3 {
+                last = last.iter().flat_map(|s| ops.iter().map(move |o| { let mut t = s.clone(); t.push(*o); t })).collect();
+                scripts.extend(last.iter().cloned());
+            }
+            for (ivn, iv) in ivset.iter().take(3) {
+                for s0 in [0u128, 255, (1u128 << 16) - par as u128] {
+                    if s0 + 3 * par as u128 + 3 >= lim {
+                        continue;
+                    }
+                    for script in &scripts {
+                        let n = base::api::script_blocks(script, par);
+                        let want_ctr: Vec<Vec<u8>> = (0..n).map(|j| rf::ctr_block(iv, d.w, d.be, s0 + j as u128)).collect();
+                        let want_ks: Vec<u8> = want_ctr.iter().flat_map(|b| c.e(b)).collect();
+                        rep.case(|| {
+                            toy::log_start();
+                            let mut core = rec::core(cfg, d, key, iv);
+                            ensure!(core.set_block_pos(s0), "MACHINERY", "harness: block position does not fit");
+                            let mut ks = dirty(n * bs);
+                            let used = core.write_script(script, &mut ks);
+                            let log = toy::log_take();
+                            ensure!(used == n, "MACHINERY", "harness: script consumed {} blocks, expected {}", used, n);
+                            let got: Vec<Vec<u8>> = log.iter().filter(|l| l.dir == b'E').map(|l| l.input.clone()).collect();
+                            if let Some(j) = first_missing(&got, &want_ctr) {
+                                return fail(format!("counter_block_wrong/{}", d.mode), format!("{} iv={} (field {}): closure script {:?} from block {}: the counter block of keystream block {} was never fed to E", d.ty, short(iv), ivn, script, s0, s0 + j as u128));
+                            }
+                            ensure!(ks == want_ks, format!("keystream_wrong/{}/script", d.mode), "{} iv={} (field {}): caller-supplied closure making the backend calls {:?} in one session from block {}: keystream {} want {} (first diff at byte {:?})", d.ty, short(iv), ivn, script, s0, short(&ks), short(&want_ks), first_diff(&ks, &want_ks));
+                            let st = core.iv_state();
+                            let want_st = rf::ctr_block(iv, d.w, d.be, s0 + n as u128);
+                            ensure!(st == want_st, format!("next_counter_block_wrong/{}", d.mode), "{}: iv_state() after closure script {:?} from block {} is {} want {}", d.ty, script, s0, short(&st), short(&want_st));
+                            Ok(())
+                        });
+                    }
+                }
+            }
+        }
         rep.count("indices_per_unit", idxs.len() as u64);
         rep.count("extra_cipher_calls_tolerated", extra_calls.get());
         rep.sample(case_json(vec![("type", d.ty.as_str().into()), ("iv", hx(&ivset[1].1)), ("index", J::Str(idxs[idxs.len() / 2].to_string())), ("expected_counter_block", hx(&rf::ctr_block(&ivset[1].1, d.w, d.be, idxs[idxs.len() / 2]))), ("indices", idxs.len().into()), ("ivs", ivset.len().into())]));
